@@ -301,7 +301,7 @@ class Case:
     def to_json(self):
         return {"T": self.T, "be": self.be, "capn": self.capn, "start": self.start,
                 "ops": [[o[0]] + [list(x) if isinstance(x, tuple) else x for x in o[1:]] for o in self.ops],
-                "kind": self.kind}
+                "kind": self.kind, "buf": self.buf.hex(), "cap": self.cap}
 
     @staticmethod
     def from_json(j):
@@ -314,7 +314,11 @@ class Case:
                 break
             xs = new
         flags += [False] * (len(ops) - len(flags))
-        return Case(j["T"], j["be"], j["capn"], j["start"], ops, flags, j.get("kind", "replay"))
+        c = Case(j["T"], j["be"], j["capn"], j["start"], ops, flags, j.get("kind", "replay"))
+        if j.get("kind") == "stale-length" and "buf" in j:
+            c.buf, c.cap = bytes.fromhex(j["buf"]), j["cap"]
+            c.flags = [False] * len(ops)
+        return c
 
 
 def gen_cases(rng, tier):
@@ -366,6 +370,23 @@ def gen_cases(rng, tier):
                       ("al", ()), ("as", ()), ("ar", ()), ("e1", 0), ("er", 0, 0), ("i1", 0, A), ("in", 0, 0, A),
                       ("if", 0, ()), ("ii", 0, ()), ("il", 0, ())]:
                 cases.append(Case(T, be, cap - L, [], [o], [False], "short-view"))
+    # stale lengths: the length prefix already holds L but the view ends inside the payload area (capn < L), e.g. a
+    # reused buffer.  One call per case, among them every assign/resize overload with EXACTLY L elements (a resize that
+    # "does not change the length" must still be checked); only the transcription is judged: handler iff the model of
+    # the code reports it, and when there is no report the buffer equals the model's
+    for T, be in cfgs:
+        Lb = LS[T]
+        for Lv in (3, 4):
+            ys = tuple((A, B, A, B)[:Lv])
+            for capn in range(0, Lv):
+                for o in [("ai", ys), ("ar", ys), ("ars", ys), ("al", ys), ("as", ys), ("an", Lv, A), ("rs", Lv), ("rv", Lv, A),
+                          ("rd", Lv), ("ai", ys[:-1]), ("ar", ys[:-1]), ("rd", Lv - 1), ("rd", capn), ("pop",), ("clr",), ("pb", A),
+                          ("e1", 0), ("i1", 0, A), ("if", 0, (A,)), ("il", 0, (A,))]:
+                    c = Case(T, be, capn, [], [o], [False], "stale-length")
+                    c.buf = FRONT + Lv.to_bytes(Lb, "big" if be else "little") + \
+                        bytes((0xF0 + i) & 0xFF for i in range(capn)) + BACK
+                    c.cap = Lb + capn
+                    cases.append(c)
     # the max_size boundary of the one-byte length type: sizes 250..255 inside a large buffer
     for be in (0, 1):
         r = rng.fork("u8max-%d" % be)
@@ -442,6 +463,22 @@ def check_case(res, c, mline, iline, cfgname, chk):
             return viol("short-view:%s:%s" % (c.ops[0][0], i1),
                         "%s on a <data> view of %d bytes (length prefix needs %d): the handler was not invoked (%s) although "
                         "the length prefix lies at or beyond the end of the view" % (tok(c.ops[0]), c.cap, L, i1), 0)
+        return False
+    if c.kind == "stale-length":
+        res.evaluations += 1
+        res.nontrivial.add(hash((chk,) + key0 + (c.capn, c.buf) + tuple(c.ops)))
+        m1 = mt[1].split(":") if len(mt) > 1 else ["missing"]
+        i1 = it[1].split(":") if len(it) > 1 else ["missing"]
+        if mt[0] != it[0]:
+            return viol("stale-length:wf", "well-formedness of a view shorter than its length prefix says: model %s impl %s" % (mt[0], it[0]), 0)
+        if m1[0] == "assert" and i1[0] != "assert":
+            return viol("stale-length:%s:%s" % (c.ops[0][0], i1[0]),
+                        "%s on a <data> view whose prefix holds a stale length larger than the %d payload bytes inside the view: "
+                        "the handler was not invoked (%s) although the operation reaches beyond the end of the view"
+                        % (tok(c.ops[0]), c.capn, ":".join(i1)[:80]), 0)
+        if m1[0] == "ok" and (i1[0] != "ok" or i1[2] != m1[2]):
+            return viol("stale-length:%s:differs" % c.ops[0][0],
+                        "%s on a view with a stale length: model %s, implementation %s" % (tok(c.ops[0]), ":".join(m1)[:80], ":".join(i1)[:80]), 0)
         return False
     if mt[0] != "wf=1" or it[0] != "wf=1":
         return viol("harness:wf", "initial state not well-formed (model %s impl %s)" % (mt[0], it[0]), 0)
